@@ -433,8 +433,156 @@ func f%d() {
 """ % (n, r.randint(1, 9), n, n, n, r.randint(0, 9), n, n, r.randint(1, 30000), n, n, n, n, n, n, n, n, n, n)
 
 
+
+def fexpr(r, vs, d=2):
+    """float64 expression over variables vs; all values are small dyadic rationals, so every result is exact"""
+    if d <= 0 or r.random() < 0.3:
+        return r.choice(vs) if r.random() < 0.7 else r.choice(["0.5", "1.25", "2", "3", "0.75", "4"])
+    op = r.choice(["+", "-", "*", "-", "+"])
+    return "%s %s %s" % (fexpr(r, vs, d - 1), op, fexpr(r, vs, d - 1)) if r.random() < 0.6 else "(%s %s %s)" % (fexpr(r, vs, d - 1), op, fexpr(r, vs, d - 1))
+
+
+def s_floats(r, n):
+    """float64 arithmetic incl. compound assignment whose right-hand side is itself a binary expression"""
+    t = r.choice(["float64", "float64", "F%d" % n])
+    ops = [r.choice(["-=", "*=", "+=", "/="]) for _ in range(4)]
+    def rhs(op):
+        if op == "/=":
+            return r.choice(["a * 2", "2 * 2", "b - b + 4", "(a - a + 2) * 4"])
+        return fexpr(r, ["a", "b"], 2)
+    return "floats", """type F%d float64
+
+func f%d() {
+	var a, b %s = %s, %s
+	x := a*2 - b
+	x %s %s
+	println(int32(x * 64))
+	x %s %s
+	println(int32(x*64), x < a, x == b)
+	y := -a - -b
+	y %s %s
+	z := - -y
+	z %s %s
+	println(int32(y*64), int32(z*64), int32(-(-z) * 2))
+	var f32 float32 = float32(a) / 4
+	f32 -= f32 - 1
+	println(int32(f32 * 16))
+}
+""" % (n, n, t, r.choice(["1.5", "2.25", "0.5", "3"]), r.choice(["0.75", "1", "2.5", "4"]),
+       ops[0], rhs(ops[0]), ops[1], rhs(ops[1]), ops[2], rhs(ops[2]), ops[3], rhs(ops[3]))
+
+
+def s_opassign_ints(r, n):
+    """compound assignments on integers whose right-hand side is a non-trivial expression"""
+    t = r.choice(T32)
+    lines = []
+    for _ in range(5):
+        op = r.choice(["-=", "*=", "+=", "/=", "%=", "&^=", "<<=", ">>=", "^=", "|=", "&="])
+        if op in ("/=", "%="):
+            e = "(%s | 1)" % ie(r, t, ["a", "b"], 1)
+        elif op in ("<<=", ">>="):
+            e = r.choice(["1", "3", "s", "s + 1", "s * 2", "33"])
+        else:
+            e = ie(r, t, ["a", "b", "x"], 2).strip("()") if r.random() < 0.7 else ie(r, t, ["a", "b"], 1)
+        lines.append("\tx %s %s\n\tprintln(x)\n" % (op, e))
+    return "opassign", """func f%d() {
+	var a, b, x %s = %s, %s, %s
+	var s uint8 = %d
+%s}
+""" % (n, t, lit(r, t), lit(r, t), lit(r, t), r.choice([0, 1, 2, 5, 9]), "".join(lines))
+
+
+def s_typeswitch(r, n):
+    """type switch inside a loop; unlabelled break in a random subset of the clauses (possibly only default);
+    code after the switch shows whether the break left the switch or the loop"""
+    def brk(p):
+        return "\t\t\tif i%%%d == %d {\n\t\t\t\tbreak\n\t\t\t}\n" % (r.choice([1, 2, 3]), r.choice([0, 0, 1])) if r.random() < p else ""
+    only_default = r.random() < 0.4
+    p = 0.0 if only_default else 0.45
+    lbl = r.random() < 0.3
+    return "type-switch", """type S%d struct{ a int32 }
+
+func f%d() {
+	vals := []interface{}{int32(%s), "s", true, S%d{7}, uint8(3), nil, []int32{1}, int32(4)}
+	var acc int32
+%s	for i, v := range vals {
+		switch x := v.(type) {
+		case int32:
+%s			acc += x
+		case string, bool:
+%s			acc += 100
+		case S%d:
+%s			acc += x.a
+		case nil:
+			acc -= 1
+%s		default:
+%s			acc += 1000
+%s		}
+		acc += int32(i)
+		println(i, acc)
+	}
+	switch v := vals[%d].(type) {
+	case uint8:
+		println("u8", v)
+	default:
+		println("other")
+	}
+	println(acc)
+}
+""" % (n, n, lit(r, "int32"), n, "outer:\n" if lbl else "", brk(p), brk(p), n, brk(p),
+       "\t\t\tif acc > 50 {\n\t\t\t\tcontinue outer\n\t\t\t}\n" if lbl else "",
+       brk(0.9 if only_default else 0.4), "\t\t\tprintln(\"d\")\n" if r.random() < 0.5 else "", r.randint(0, 7))
+
+
+def s_value_receivers(r, n):
+    """methods with struct / array VALUE receivers that modify their receiver: the caller's variable must not change;
+    called on variables, through pointers, via embedded fields and as method values"""
+    t = r.choice(T32)
+    return "value-receivers", """type O%d struct {
+	level %s
+	tags  [2]%s
+}
+
+func (o O%d) with(l %s) O%d { o.level = l; o.tags[0] += l; return o }
+func (o O%d) bump() %s     { o.level++; return o.level }
+
+type V%d [3]%s
+
+func (v V%d) set(i int, x %s) V%d { v[i] = x; return v }
+func (v V%d) sum() (s %s)      { v[0] = 0; for _, e := range v { s += e }; return }
+
+type W%d struct {
+	O%d
+	n %s
+}
+
+func f%d() {
+	o := O%d{level: %s}
+	p := o.with(%s)
+	q := &o
+	r := q.with(%s)
+	println(o.level, o.tags[0], p.level, p.tags[0], r.level, o.bump(), o.level, q.bump(), q.level)
+	f := o.bump
+	o.level = %s
+	println(f(), o.level)
+	w := W%d{O%d: o, n: 1}
+	w2 := w.with(9)
+	println(w.level, w2.level, w.bump(), w.level)
+	v := V%d{1, 2, 3}
+	v2 := v.set(1, %s)
+	pv := &v
+	println(v[1], v2[1], v.sum(), v[0], pv.sum(), pv.set(0, 5)[0], v[0])
+	g := v.sum
+	v[2] = %s
+	println(g(), v.sum())
+	arr := []O%d{o, p}
+	println(arr[0].with(3).level, arr[0].level, arr[1].bump(), arr[1].level)
+}
+""" % (n, t, t, n, t, n, n, t, n, t, n, t, n, n, t, n, n, t, n, n, lit(r, t), lit(r, t), lit(r, t), lit(r, t), n, n, n, lit(r, t), lit(r, t), n)
+
+
 SNIPPETS = [s_switch, s_goto, s_labels, s_arrays, s_structs, s_slices, s_maps, s_strings, s_closures, s_methods, s_named, s_multi, s_multi_dep, s_string_oob,
-            s_shadow, s_consts]
+            s_shadow, s_consts, s_floats, s_opassign_ints, s_typeswitch, s_value_receivers, s_floats, s_value_receivers]
 
 
 def generate_batch(r, ngroups):
